@@ -95,16 +95,17 @@ Proof.
   - exact (reparse_auth_form dbg hp hpo hd HRT None sch ui h pt p q f K).
 Qed.
 
-(* ---------- the law for two canonical records with authority ---------- *)
-Theorem relative_auth stb stt sch ui h pt bp bq bf sch' ui' h' pt' tp tq tf r :
+(* ---------- two canonical records with authority inside MR_ok: the target IS the record with the base's front ---------- *)
+Lemma auth_pair_front stb stt sch ui h pt bp bq bf sch' ui' h' pt' tp tq tf :
   st_is_file stb = false ->
   auth_ok hp hpo hd stb sch ui h pt bp bq bf ->
   auth_ok hp hpo hd stt sch' ui' h' pt' tp tq tf -> (stt = STSpecialNotFile -> pth_ok_sp tp) ->
   mr_ok (auth_url hd sch ui h pt bp bq bf) (auth_url hd sch' ui' h' pt' tp tq tf) = true ->
-  make_relative dbg (auth_url hd sch ui h pt bp bq bf) (auth_url hd sch' ui' h' pt' tp tq tf) = Some (Some r) ->
-  parse_url dbg hp hpo hd None (Some (auth_url hd sch ui h pt bp bq bf)) r = POk (auth_url hd sch' ui' h' pt' tp tq tf).
+  exists bsegs blast tsegs tlast, bp = Some (bsegs, blast) /\ tp = Some (tsegs, tlast) /\ stt = stb
+    /\ auth_url hd sch' ui' h' pt' tp tq tf = auth_url hd sch ui h pt tp tq tf
+    /\ auth_ok hp hpo hd stb sch ui h pt tp tq tf.
 Proof.
-  intros Hnf Kb Kt Ktp Hok Hmr.
+  intros Hnf Kb Kt Ktp Hok.
   pose proof (mr_ok_pre _ _ Hok) as Epre. rewrite !auth_u_pre in Epre.
   (* the same scheme, hence the same scheme type *)
   assert (sch' = sch) as Esch.
@@ -117,19 +118,34 @@ Proof.
   destruct (mr_ok_paths _ _ Hok) as (pb & pt0 & Pb & Pt & Sb & St). rewrite auth_path in Pb, Pt.
   inversion Pb; subst pb. inversion Pt; subst pt0. clear Pb Pt.
   destruct bp as [[bsegs blast]|]; [|discriminate]. destruct tp as [[tsegs tlast]|]; [|discriminate]. clear Sb St.
+  exists bsegs, blast, tsegs, tlast. split; [reflexivity|]. split; [reflexivity|]. split; [reflexivity|].
   (* the target's path behind the base's front is canonical ... *)
   assert (auth_ok hp hpo hd stb sch ui h pt (Some (tsegs, tlast)) tq tf) as K'.
   { destruct Kb as [b1 b2 b3 b4 b5 b6 b7 b8 b9 b10 b11 b12]. destruct Kt as [t1 t2 t3 t4 t5 t6 t7 t8 t9 t10 t11 t12].
     unfold auth_pre in t11, t12. rewrite <- Epre in t11, t12.
     constructor; assumption. }
+  split; [|exact K'].
   (* ... and has the target's serialization: it is the target *)
-  assert (auth_url hd sch ui' h' pt' (Some (tsegs, tlast)) tq tf = auth_url hd sch ui h pt (Some (tsegs, tlast)) tq tf) as Et.
-  { pose proof (reparse_form stb sch ui h pt _ tq tf Hnf K' Ktp) as R1.
-    pose proof (reparse_form stb sch ui' h' pt' _ tq tf Hnf Kt Ktp) as R2.
-    assert (auth_ser hd sch ui' h' pt' (Some (tsegs, tlast)) tq tf = auth_ser hd sch ui h pt (Some (tsegs, tlast)) tq tf) as Es
-      by (unfold auth_ser, auth_pre; rewrite Epre; reflexivity).
-    rewrite Es, R1 in R2. congruence. }
-  rewrite Et in *. clear Et Kt Epre ui' h' pt'.
+  pose proof (reparse_form stb sch ui h pt _ tq tf Hnf K' Ktp) as R1.
+  pose proof (reparse_form stb sch ui' h' pt' _ tq tf Hnf Kt Ktp) as R2.
+  assert (auth_ser hd sch ui' h' pt' (Some (tsegs, tlast)) tq tf = auth_ser hd sch ui h pt (Some (tsegs, tlast)) tq tf) as Es
+    by (unfold auth_ser, auth_pre; rewrite Epre; reflexivity).
+  rewrite Es, R1 in R2. congruence.
+Qed.
+
+(* ---------- the law for two canonical records with authority ---------- *)
+Theorem relative_auth stb stt sch ui h pt bp bq bf sch' ui' h' pt' tp tq tf r :
+  st_is_file stb = false ->
+  auth_ok hp hpo hd stb sch ui h pt bp bq bf ->
+  auth_ok hp hpo hd stt sch' ui' h' pt' tp tq tf -> (stt = STSpecialNotFile -> pth_ok_sp tp) ->
+  mr_ok (auth_url hd sch ui h pt bp bq bf) (auth_url hd sch' ui' h' pt' tp tq tf) = true ->
+  make_relative dbg (auth_url hd sch ui h pt bp bq bf) (auth_url hd sch' ui' h' pt' tp tq tf) = Some (Some r) ->
+  parse_url dbg hp hpo hd None (Some (auth_url hd sch ui h pt bp bq bf)) r = POk (auth_url hd sch' ui' h' pt' tp tq tf).
+Proof.
+  intros Hnf Kb Kt Ktp Hok Hmr.
+  destruct (auth_pair_front _ _ _ _ _ _ _ _ _ _ _ _ _ _ _ _ Hnf Kb Kt Ktp Hok)
+    as (bsegs & blast & tsegs & tlast & -> & -> & -> & Et & K').
+  rewrite Et in *. clear Et Kt.
   rewrite !auth_is_hier in *.
   apply relative_hier; [|exact Hok | exact Hmr].
   pose proof (front_sch hd sch ui h pt []) as Es. rewrite app_nil_r in Es.
